@@ -20,6 +20,9 @@ def family(seed, tier):
     # bank era: batches that spend PEG around a PEG request whose PEG is only credited in a later pass (a batch that is refused, or that
     # fails the block, must leave no trace: no debit of the request's input, no transfer of the PEG it already held)
     docs += c03.bank_chains(seed, 1 if tier == "quick" else 3, prefix="c04")
+    # all eras: FCT burns (and every factoid transaction shape that is not a burn), rewards of every grader version, the PEG bank
+    lg = scen.legacy_chain(seed + 3, name="c04-legacy", tip=28)
+    docs.append((lg.s["name"], lg.doc()))
     r = scen.rich_chain(seed, name="c04-rich", long=(tier != "quick"))
     docs.append((r.s["name"], r.doc()))
     return docs
